@@ -136,6 +136,10 @@ def evaluate(case):
                     gas_density(fl, res["p_to_bar"] + p_amb(hj.at[tjn]), t_out)) / 2
         return (fl.density(t_from) + fl.density(t_out)) / 2
 
+    from ..compare import flow_scale
+    flow_scale_ = flow_scale(net)
+    # flows below the accuracy of the run count as stagnant for the lift clauses (discontinuous lift at zero flow)
+    stagnant_thr = max(1e-9, 1e-5 * flow_scale_, 0.0 if "tol_m" in opts else 1e-6)
     if "compressor" in net and len(net.compressor):
         for idx in net.compressor.index:
             res = net.res_compressor.loc[idx]
@@ -148,7 +152,7 @@ def evaluate(case):
             pf, pt = res.p_from_bar + p_amb(hj.at[fjn]), res.p_to_bar + p_amb(hj.at[tjn])
             hyd = rho_mean(res, fjn, tjn) * G * (hj.at[fjn] - hj.at[tjn]) / P_CONV
             exp_lift = pf * (ratio - 1.0) if m >= 0 else 0.0
-            if abs(m) < 1e-9:
+            if abs(m) < stagnant_thr:     # stagnant within the accuracy of the flow split: lift discontinuous
                 continue   # the lift is discontinuous at zero flow (see C07 known finding): no clause at exactly zero flow
             # the lift is evaluated from the from-pressure of the previous Newton iterate (<= tol_p in force away)
             lagp = 4.0 * opts.get("tol_p", 1e-5) * max(ratio, 1.0)
@@ -162,7 +166,7 @@ def evaluate(case):
         for idx in net.pump.index:
             res = net.res_pump.loc[idx]
             m = res.mdot_from_kg_per_s
-            if np.isnan(m) or not net.pump.at[idx, "in_service"] or abs(m) < 1e-9:
+            if np.isnan(m) or not net.pump.at[idx, "in_service"] or abs(m) < stagnant_thr:
                 continue
             fjn, tjn = int(net.pump.at[idx, "from_junction"]), int(net.pump.at[idx, "to_junction"])
             kinds.add("pump")
